@@ -100,6 +100,11 @@ func DialContext(ctx context.Context, addr, mycall, password string) (net.Conn, 
 		return nil, err
 	}
 
+	// The login must not outlive the context: close the connection (unblocking
+	// any pending read) if the context is cancelled or expires before we are done.
+	stop := context.AfterFunc(ctx, func() { conn.Close() })
+	defer stop()
+
 	// Log in to telnet server
 	reader := bufio.NewReader(conn)
 L:
@@ -107,6 +112,9 @@ L:
 		line, err := reader.ReadString('\r')
 		line = strings.TrimSpace(strings.ToLower(line))
 		switch {
+		case err != nil && ctx.Err() != nil:
+			conn.Close()
+			return nil, ctx.Err()
 		case err != nil:
 			conn.Close()
 			return nil, fmt.Errorf("Error while logging in: %s", err)
@@ -118,5 +126,9 @@ L:
 		}
 	}
 
+	if !stop() {
+		// The context ended just as the login completed. The connection is being closed.
+		return nil, ctx.Err()
+	}
 	return &Conn{conn, CMSTargetCall, reader}, nil
 }
